@@ -241,6 +241,8 @@ class MirGen:
                 prev = [s for s in out if s[0] == 'bin']
                 if prev and r.chance(1, 5):              # a repeated computation (value numbering)
                     _, _, op, a, b = r.pick(prev)
+                    if r.chance(1, 3):                   # the same operands the other way round: NOT the same value for - / % < <=
+                        a, b = b, a
                     if op in CMP and x not in bools:
                         bools.append(x)
                 out.append(['bin', x, op, a, b])
@@ -375,11 +377,11 @@ WITNESS_RAW_INIT = {'params': [1], 'body': [['bin', 2, 'PLUS', ['i', 1], ['i', 2
 
 def synthetic(tier, seed):
     rng = Rng(seed ^ 0x5EED)
-    fs = [MirGen(rng.fork()).function() for _ in range(400 if tier == 'quick' else 4000)]
+    fs = [MirGen(rng.fork()).function() for _ in range(300 if tier == 'quick' else 4000)]
     rng2 = Rng(seed ^ 0xC5E5EED)
-    fs += [MirGen(rng2.fork(), plant=True).function() for _ in range(150 if tier == 'quick' else 1500)]
+    fs += [MirGen(rng2.fork(), plant=True).function() for _ in range(100 if tier == 'quick' else 1500)]
     rng3 = Rng(seed ^ 0x57C7)
-    return fs + [MirGen(rng3.fork(), plant=(i % 3 == 0), ext=True).function() for i in range(120 if tier == 'quick' else 1200)]
+    return fs + [MirGen(rng3.fork(), plant=(i % 3 == 0), ext=True).function() for i in range(100 if tier == 'quick' else 1200)]
 
 
 def real_pass_batch(funcs, pass_name):
@@ -429,14 +431,14 @@ def deep(ck, tier, seed):
             for k, pn in enumerate(CHAIN):
                 if vs[k] is None or vs[k + 1] is None or pn not in MODELLED:
                     continue
-                if quick and pn in ('dce', 'lvn') and vs[k] == vs[k + 1] and (i + nfun) % 4:
+                if quick and pn in ('dce', 'lvn', 'cse') and vs[k] == vs[k + 1] and (i + nfun) % 4:
                     continue          # quick tier: three quarters of the applications that change nothing are skipped
                 cases.append((pn, vs[k], vs[k + 1], {'program': i, 'function': f['name']}, f['fresh'][k] or []))
             rv = f.get('rounds') or [None, None]
             if vs[0] is not None and rv[0] is not None and not (quick and (i + nfun) % 3):
                 # the real driver optimize_function_for_rounds (lvn only) against Passes.pipeline
                 cases.append(('pipeline', vs[0], rv[0], {'program': i, 'function': f['name']}, []))
-            if vs[0] is not None and rv[1] is not None:
+            if vs[0] is not None and rv[1] is not None and not (quick and (i + nfun) % 2 and vs[0] == rv[1]):
                 # the real driver with cse and lvn against Passes.pipeline true true (the supply: every temporary it allocated)
                 cases.append(('pipeline+cse', vs[0], rv[1], {'program': i, 'function': f['name']}, (f.get('rounds_fresh') or [[], []])[1] or []))
             if vs[0] is not None and rv[1] is not None and len(vs) == len(FULL_CHAIN) + 1 and vs[-1] is not None:
@@ -465,7 +467,7 @@ def deep(ck, tier, seed):
             if 'after' not in r:
                 nxt.append(None)
                 continue
-            if step < len(CHAIN) and not (quick and pn in ('dce', 'lvn') and f0 == r['after'] and k % 4):
+            if step < len(CHAIN) and not (quick and pn in ('dce', 'lvn', 'cse') and f0 == r['after'] and k % 4):
                 cases.append((pn, f0, r['after'], {'synthetic': k}, r.get('fresh', [])))
             nxt.append(r['after'])
         cur = nxt
@@ -500,8 +502,15 @@ def deep(ck, tier, seed):
     for si, idxs in enumerate(shards):
         body = HEADER + 'Definition cs : list (pass * list name * func * func) := [\n%s].\nEval vm_compute in (tie_cases cs).\n' % ';\n'.join(
             '(%s, %s, %s, %s)' % (MODELLED[cases[j][0]], g_names(cases[j][4]), g_func(cases[j][1]), g_func(cases[j][2])) for j in idxs)
-        jobs.append(('c02deep_%d' % si, body))
+        jobs.append(('c02deep_%d_%d' % (os.getpid(), si), body))
     outs = coq_eval_many(jobs, timeout=1500)
+    # the shard files carry the process id (two runs at the same time must not overwrite each other's files)
+    from lib.vlib import WORK
+    for (name, _), (rc, _o) in zip(jobs, outs):
+        for ext in ('.v', '.vo', '.vok', '.vos', '.glob'):
+            fp = os.path.join(WORK, name + ext)
+            if os.path.exists(fp) and (rc == 0 or ext != '.v'):
+                os.remove(fp)
     stats = {}
     for si, (rc, o) in enumerate(outs):
         resl = coq_result(o) if rc == 0 else None
